@@ -28,7 +28,7 @@ LINE_FUNCS = ['TT.__matmul__', 'dense_matvec', 'TT.t', 'TT.full']
 DT = ['f64', 'f64', 'f32', 'c128']
 OPS = ['Ax', 'xA', 'AB', 'Adense', 't', 'add', 'sub', 'mul', 'full', 'neg']
 SC_OPS = ['add', 'radd', 'sub', 'rsub', 'mul', 'rmul', 'div']
-SC_KINDS = ['int', 'float', 'complex', 'npf64', 't0', 't1', 'zero', 'float_nr', 'npf64_nr', 't0_nr', 't0_f32', 't0_i64', 't1_i32', 'tiny', 'tinyneg', 'huge']
+SC_KINDS = ['int', 'float', 'complex', 'npf64', 't0', 't1', 'zero', 'float_nr', 'npf64_nr', 't0_nr', 't0_f32', 't0_i64', 't1_i32', 'tiny', 'tinyneg', 'huge', 't0_bigint', 't1_bigint']
 
 
 def three_distinct(rng, d, pool=(1, 2, 3, 4, 5)):
@@ -215,7 +215,7 @@ def run_scalar(case, ctx, g):
     fns = {'add': lambda a, b: a + b, 'radd': lambda a, b: b + a, 'sub': lambda a, b: a - b, 'rsub': lambda a, b: b - a,
            'mul': lambda a, b: a * b, 'rmul': lambda a, b: b * a, 'div': lambda a, b: a / b}
     base_ = {'add': 'add', 'radd': 'add', 'sub': 'sub', 'rsub': 'sub', 'mul': 'mul', 'rmul': 'mul', 'div': 'div'}[op]
-    skind = 'tensor-scalar' if kind in ('t0', 't1', 't0_nr') else ('tensor-scalar(other dtype)' if kind in ('t0_f32', 't0_i64', 't1_i32') else ('numpy-scalar' if kind.startswith('np') else 'python-scalar'))
+    skind = 'tensor-scalar' if kind in ('t0', 't1', 't0_nr') else ('tensor-scalar(other dtype)' if kind in ('t0_f32', 't0_i64', 't1_i32', 't0_bigint', 't1_bigint') else ('numpy-scalar' if kind.startswith('np') else 'python-scalar'))
     key = 'scalar/%s/%s' % (op, skind)
     what = 'A %s scalar(%s=%r) M=%s N=%s R=%s %s' % (op, kind, sr, case['M'], case['N'], case['R'], case['dtype'])
     ctx.count('branch:scalar')
@@ -236,7 +236,7 @@ def run_scalar(case, ctx, g):
     except ValueError as e:
         ctx.viol(key + '/clause=ill-formed-result', '%s: %s' % (what, e))
         return
-    if kind in ('tiny', 'tinyneg', 'huge'):
+    if kind in ('tiny', 'tinyneg', 'huge', 't0_bigint', 't1_bigint'):
         # scalars far from 1: the allowance follows the size of the exact result (a product with 1e-18 that comes back as 0 is off by 100 %, not by roundoff)
         a_ = abs(sr)
         mag = srep * a_ if base_ == 'mul' else (srep / a_ if base_ == 'div' else srep + a_ * max(1, ref.numel()) ** 0.5)
